@@ -14,14 +14,55 @@ import (
 
 var c13Alphabet = []string{"'", "\"", "`", "\x1e", "\\", "{", "}", "%", "\r", "\n", "\t", "\f", " ", "a", "n", "r", "t", "f", "0", "é", "中", "🎲", "é", "\x00", "‍", "{%", "%}", "\\n", "\\\\", "x", "1", "."}
 
+// c13Rune draws a code point from all of Unicode ("any Unicode text"), with extra weight on
+// code points whose low byte or low 7 bits coincide with a character that is special in a literal
+// (quote, backslash, brace, percent, CR/LF, 0x1E) — the ones a byte-wise scanner would confuse.
+func c13Rune(r *fw.Rand) rune {
+	for {
+		var c rune
+		switch r.Intn(6) {
+		case 0:
+			c = rune(0x4e00 + r.Intn(0x9fff-0x4e00))
+		case 1:
+			c = rune(0x80 + r.Intn(0x2000))
+		case 2:
+			c = rune(0x80 + r.Intn(0x10ffff-0x80))
+		case 3:
+			c = rune(0x10000 + r.Intn(0x100000))
+		default:
+			low := fw.PickT(r, []rune{0x27, 0x22, 0x60, 0x1e, 0x5c, 0x7b, 0x7d, 0x25, 0x0a, 0x0d, 0x00, 0x20})
+			switch r.Intn(3) {
+			case 0:
+				c = rune(1+r.Intn(0xff))<<8 | low
+			case 1:
+				c = rune(1+r.Intn(0x10))<<16 | rune(r.Intn(0x100))<<8 | low
+			default:
+				c = rune(1+r.Intn(0x1ff))<<7 | (low & 0x7f)
+			}
+		}
+		if c >= 0xd800 && c <= 0xdfff || c > 0x10ffff || !utf8.ValidRune(c) {
+			continue
+		}
+		return c
+	}
+}
+
 func c13Text(r *fw.Rand) string {
 	n := r.Intn(30)
+	wide := r.Intn(3) // 0: classic alphabet only; 1: some arbitrary code points; 2: mostly arbitrary
 	var sb strings.Builder
 	for i := 0; i < n; i++ {
-		sb.WriteString(r.Pick(c13Alphabet))
+		if wide == 1 && r.P(1, 4) || wide == 2 && r.P(3, 4) {
+			sb.WriteRune(c13Rune(r))
+		} else {
+			sb.WriteString(r.Pick(c13Alphabet))
+		}
 	}
 	return sb.String()
 }
+
+// variables every template case starts with: containers that are reachable under several names
+const c13Prelude = "sa = [1, 2]; sd = {'k': 1}; sb = sa; sn = [sa, 0]; sm = {'in': sd}; se = []"
 
 // c13Encode writes text as a literal with delimiter q using the documented escapes.
 // ok=false when the text cannot be written with that delimiter (no escape for ` and 0x1E).
@@ -83,7 +124,17 @@ type c13Hole struct {
 }
 
 func c13HoleGen(r *fw.Rand, depth int) c13Hole {
-	switch k := r.Intn(19); {
+	switch k := r.Intn(25); {
+	case k == 19:
+		return c13Hole{"sa", "[1, 2]", ""}
+	case k == 20:
+		return fw.PickT(r, []c13Hole{{"sb", "[1, 2]", ""}, {"sa[0]", "1", ""}, {"se", "[]", ""}, {"sa + se", "[1, 2]", ""}})
+	case k == 21:
+		return c13Hole{"sd", "{'k': 1}", ""}
+	case k == 22:
+		return fw.PickT(r, []c13Hole{{"sn", "[[1, 2], 0]", ""}, {"sm", "{'in': {'k': 1}}", ""}, {"[sa, 0]", "[[1, 2], 0]", ""}, {"sm.in", "{'k': 1}", ""}, {"sn[0]", "[1, 2]", ""}})
+	case k == 23:
+		return c13Hole{"sv", "\x00SV", ""}
 	case k == 0:
 		return c13Hole{"1+2", "3", ""}
 	case k == 1:
@@ -147,6 +198,9 @@ func c13Template(r *fw.Rand, depth int, maxHoles int) c13Tmpl {
 		seg := ""
 		for k := r.Intn(4); k > 0; k-- {
 			c := r.Pick(c13Alphabet)
+			if r.P(1, 5) {
+				c = string(c13Rune(r))
+			}
 			if strings.ContainsRune(c, '`') || strings.ContainsRune(c, 0x1e) {
 				continue
 			}
@@ -227,6 +281,8 @@ func c13Case(w *fw.W, idx int, r *fw.Rand) {
 		}
 	case 5, 6, 7, 8: // templates
 		t := c13Template(r, r.Intn(3), 6)
+		sv := c13Text(r)
+		t.want = strings.ReplaceAll(t.want, "\x00SV", sv)
 		wrap := r.Intn(3)
 		src := t.src
 		wantRet := "s" + fmt.Sprintf("%q", t.want)
@@ -238,10 +294,15 @@ func c13Case(w *fw.W, idx int, r *fw.Rand) {
 			src = "'L' + " + t.src + " + 'R'"
 			wantRet = "s" + fmt.Sprintf("%q", "L"+t.want+"R")
 		}
-		desc := fmt.Sprintf("template=%q", src)
+		desc := fmt.Sprintf("template=%q (after %q, sv=%q)", src, c13Prelude, sv)
 		w.Begin(idx, desc)
 		vm := cfg.NewVM()
 		var err error
+		if e0 := vm.Run(c13Prelude); e0 != nil {
+			w.Violate(idx, "string", "string|prelude-rejected", desc, firstLine(e0.Error()), nil)
+			return
+		}
+		vm.Attrs.Store("sv", ds.NewStrVal(sv))
 		pv, st := fw.Guard(func() { err = vm.Run(src) })
 		w.Eval(1)
 		w.Count("templates", 1)
